@@ -113,6 +113,15 @@ PROPS = {
         "trusted_base": ["stores follow JwkMemStore / KeyIdMemstore (insert refuses an existing digest, get/delete refuse a missing one); a fault is a call that fails WITHOUT effect (a call that takes effect and then reports failure is outside the model)", "MethodDigest is the pair (fragment, key material): the 64-bit SeaHash and its collisions are not modelled", "futures::join! of the two deletions is modelled as both calls being made (memstore futures complete at the first poll)", "the document part is the C04 model"],
         "assumptions": ["UndoOperationFailed is the explicit report the statement exempts", "after a successful generate the method is looked up by its full id: a bare fragment is documented to misbehave when another DID's id carries the same fragment (C04)"],
     },
+    "C14": {
+        "translate": True,
+        "gens": ["C04", "C14"],
+        "diff_is_violation": ["unframe", "frame"],
+        "trivial": ["bad-request", "start:reject"],
+        "rule": "streams: (1) corpus; (2) rebase: a fixed document and 500 (8000) random IOTA documents (self / other IOTA DIDs / a DID of another method in method ids, method controllers, references, service ids, one-or-set controllers; ids with path; half of the documents also draw the placeholder DID, non-IOTA controllers and duplicate ids) packed and unpacked for EACH of five IOTA DIDs (own DID, DIDs the document mentions, DIDs it does not mention): result document or error kind; (3) framing: the packed bytes with every header byte set to 10 values, every truncation length 0..11 and len-1/len-2, trailing bytes, 7 length prefixes (0, 1, 2, len-1, len+1, len+2, 65535) with and without padding, 300 (3000) random short frames biased to valid headers, the JSON decoder's verdict on the candidate payloads passed as facts; (4) the 16-bit bound: documents whose JSON is exactly n bytes for n in {1500, 1501, 4096, 65533..65537, 70000, 131071, 131072, 200000}: header and length or refusal. Implementation-side oracle on (2), for every target and every document not mentioning the placeholder: a successful unpack equals the original JSON with exactly id, controllers, method ids and controllers, reference ids and service ids rewritten (alsoKnownAs and custom properties spelling the own DID must stay), ledger addresses removed; for the own DID the unpacked IotaDocument == the packed one. Non-trivial = not bad-request / start:reject; distinct request lines.",
+        "trusted_base": ["JSON (serde_json + the serde derives of CoreDocument / IotaDocumentMetadata) is a parameter: any codec with dec (enc x) = some x; tied by the round-trip oracle and by passing the decoder's verdict as facts", "DIDs are abstract numbers, isIota is a parameter (IotaDID::check_validity is C17's model)", "the document part is the C04 model plus controllers"],
+        "assumptions": ["documents that themselves mention the reserved placeholder identifier are excluded by the statement (modelled and compared, but outside the theorems and the oracle)"],
+    },
     "C18": {
         "translate": True,
         "diff_is_violation": False,
